@@ -1,16 +1,32 @@
 package config
 
-// C20 — the naming template travels through config.NewConfig unchanged.
-// Differential: rendering with cfg.NamingFormat equals rendering with the
-// template itself (FileNamingFormat is judged against the reference in
-// util/format/c20_test.go). What NewConfig does with blank templates is not
-// part of the statement: those cases are run for panics only.
+// C20 — the naming template as the generator commands use it: the -style value
+// goes through config.NewConfig and the resulting NamingFormat is given to
+// format.FileNamingFormat ("pipeline"). The caller sees a file name or an error
+// (from either stage). Two oracles on that observation:
+//
+//   * from the statement alone: a non-empty template with no go-then-designer
+//     reading (a word missing, words in the wrong order) must be REJECTED by the
+//     pipeline, whichever stage reports it. This covers templates made of white
+//     space only (ASCII and Unicode), of invisible characters, of punctuation;
+//   * differential: for every non-empty template the pipeline outcome equals the
+//     outcome of FileNamingFormat on the template itself (which is judged
+//     against the reference in util/format/c20_test.go); an error of NewConfig
+//     counts as "rejected", so NewConfig may neither alter a template nor refuse
+//     a valid one nor wave an invalid one through.
+//
+// The EMPTY template is the documented "unset" value (config/readme.md: default
+// godesigner): the only thing asserted is that what NewConfig substitutes is a
+// valid template; an error for it is admissible too (the statement's rejection
+// clause, read literally).
 
 import (
 	"fmt"
 	"strconv"
 	"strings"
 	"testing"
+	"unicode"
+	"unicode/utf8"
 
 	"github.com/gotid/god/tools/god/util/format"
 	"pgregory.net/rapid"
@@ -47,29 +63,136 @@ func c20Render(t, id string) (out string) {
 	return "ok: " + s
 }
 
+// c20New: NewConfig with panics turned into a verdict text.
+func c20New(tp string) (cfg *Config, err error, panicked string) {
+	defer func() {
+		if p := recover(); p != nil {
+			panicked = fmt.Sprintf("NewConfig(%q) panicked: %v", tp, p)
+		}
+	}()
+	cfg, err = NewConfig(tp)
+	return cfg, err, ""
+}
+
+// c20Pipeline: what a generator command does with the result of NewConfig
+// (`if err != nil { return err }`, then FileNamingFormat(cfg.NamingFormat, id)).
+func c20Pipeline(cfg *Config, err error, id string) (out, stage string) {
+	if err != nil {
+		return "error", "config"
+	}
+	if cfg == nil {
+		return "panic: NewConfig returned neither a Config nor an error", "config"
+	}
+	return c20Render(cfg.NamingFormat, id), "format"
+}
+
+// c20HasReading: can t be read as prefix + go + through + designer + suffix
+// (ASCII case-insensitive)? Written from the statement; bytes >= 0x80 never match.
+func c20HasReading(t string) bool {
+	fold := func(b byte) byte {
+		if 'A' <= b && b <= 'Z' {
+			return b + 'a' - 'A'
+		}
+		return b
+	}
+	occ := func(word string) (out []int) {
+		for i := 0; i+len(word) <= len(t); i++ {
+			ok := true
+			for k := 0; k < len(word) && ok; k++ {
+				ok = fold(t[i+k]) == word[k]
+			}
+			if ok {
+				out = append(out, i)
+			}
+		}
+		return out
+	}
+	gos, des := occ("go"), occ("designer")
+	for _, i := range gos {
+		for _, j := range des {
+			if j >= i+2 {
+				return true
+			}
+		}
+	}
+	return false
+}
+
+// c20TplClass: evidence class of a template.
+func c20TplClass(tp string) string {
+	switch {
+	case tp == "":
+		return "tpl:empty"
+	case strings.TrimSpace(tp) == "":
+		for i := 0; i < len(tp); i++ {
+			if tp[i] >= utf8.RuneSelf {
+				return "tpl:blank-unicode"
+			}
+		}
+		return "tpl:blank-ascii"
+	case c20HasReading(tp):
+		if tp != strings.TrimSpace(tp) {
+			return "tpl:reading+edge-space"
+		}
+		return "tpl:reading"
+	}
+	visible := false
+	for _, r := range tp {
+		if unicode.IsGraphic(r) && !unicode.IsSpace(r) {
+			visible = true
+		}
+	}
+	if !visible {
+		return "tpl:invisible-nonblank"
+	}
+	return "tpl:no-reading"
+}
+
+// white space per unicode.IsSpace (what strings.TrimSpace removes) ...
+var c20Space = []string{" ", "  ", "\t", "\n", "\r", "\v", "\f", "\r\n", " \t\r\n ", "\u0085", "\u00a0", "\u1680", "\u2000", "\u2002",
+	"\u2003", "\u2007", "\u2009", "\u200a", "\u2028", "\u2029", "\u202f", "\u205f", "\u3000", "\u3000\u2003", "\u00a0 "}
+
+// ... and characters that show nothing but are NOT white space for Go.
+var c20Invisible = []string{"\u200b", "\ufeff", "\u180e", "\u2060", "\x00", "\u200d", "\u00ad", "\x7f", "\x1f", "\u200b ", "\u2800", "\u3164"}
+
 func TestVerif_C20_config_passthrough(t *testing.T) {
+	blank := rapid.Custom(func(rt *rapid.T) string {
+		return strings.Join(rapid.SliceOfN(rapid.SampledFrom(c20Space), 1, 4).Draw(rt, "blank"), "")
+	})
 	frag := rapid.OneOf(
 		rapid.SampledFrom([]string{"", "", "_", "-", "#", " ", "  ", "\t", "\n", "x", "前缀", ".tmpl"}),
+		rapid.SampledFrom(c20Space),
+		rapid.SampledFrom(c20Invisible),
 		rapid.StringN(0, 3, 8),
 	)
+	goW := rapid.SampledFrom([]string{"go", "GO", "Go", "gO"})
+	deW := rapid.SampledFrom([]string{"designer", "DESIGNER", "Designer", "desIgner"})
 	tpl := rapid.Custom(func(rt *rapid.T) string {
-		switch k := rapid.IntRange(0, 9).Draw(rt, "k"); {
-		case k < 6:
-			return frag.Draw(rt, "pre") + rapid.SampledFrom([]string{"go", "GO", "Go", "gO"}).Draw(rt, "go") + frag.Draw(rt, "thr") +
-				rapid.SampledFrom([]string{"designer", "DESIGNER", "Designer", "desIgner"}).Draw(rt, "de") + frag.Draw(rt, "suf")
-		case k < 7:
+		switch k := rapid.IntRange(0, 19).Draw(rt, "k"); {
+		case k < 9:
+			return frag.Draw(rt, "pre") + goW.Draw(rt, "go") + frag.Draw(rt, "thr") + deW.Draw(rt, "de") + frag.Draw(rt, "suf")
+		case k < 10:
 			return ""
-		case k < 8:
-			return rapid.SampledFrom([]string{" ", "\t", " \n "}).Draw(rt, "blank")
+		case k < 13:
+			return blank.Draw(rt, "blank")
+		case k < 14:
+			return strings.Join(rapid.SliceOfN(rapid.OneOf(rapid.SampledFrom(c20Invisible), rapid.SampledFrom(c20Space)), 1, 3).Draw(rt, "invisible"), "")
+		case k < 15: // a word missing, around white space or other fragments
+			w := rapid.OneOf(goW, deW, rapid.Just("")).Draw(rt, "only")
+			return frag.Draw(rt, "pre") + w + frag.Draw(rt, "suf")
+		case k < 16: // wrong order
+			return frag.Draw(rt, "pre") + deW.Draw(rt, "de") + frag.Draw(rt, "thr") + goW.Draw(rt, "go") + frag.Draw(rt, "suf")
+		case k < 17: // no letters at all
+			return rapid.StringMatching(`[_#\-. 0-9/]{1,4}`).Draw(rt, "punct")
 		default:
 			return rapid.String().Draw(rt, "any")
 		}
 	})
 	ident := rapid.OneOf(
 		rapid.StringMatching(`_{0,2}[a-z]{1,5}(_{1,2}[a-zA-Z0-9]{1,5}){1,3}_{0,1}`),
-		rapid.SampledFrom([]string{"", "HTTPServer", "userID", "welcome_to_go_designer"}),
+		rapid.SampledFrom([]string{"", "HTTPServer", "userID", "welcome_to_go_designer", "user_center", "service_context", "vars"}),
 	)
-	kit.Run(t, "C20", "config-passthrough", kit.Opts{Quick: 5000, Thorough: 160000},
+	kit.Run(t, "C20", "config-passthrough", kit.Opts{Quick: 6000, Thorough: 160000},
 		func(rt *rapid.T) c20Cfg {
 			c := c20Cfg{T: c20Q(tpl.Draw(rt, "t")), I: c20Q(ident.Draw(rt, "i"))}
 			if rapid.Bool().Draw(rt, "two") {
@@ -79,67 +202,79 @@ func TestVerif_C20_config_passthrough(t *testing.T) {
 		},
 		func(c c20Cfg) (v kit.Verdict) {
 			tp, id := c20U(c.T), c20U(c.I)
-			var cfg *Config
-			var err error
-			func() {
-				defer func() {
-					if p := recover(); p != nil {
-						v.Fail = fmt.Sprintf("NewConfig(%q) panicked: %v", tp, p)
-					}
-				}()
-				cfg, err = NewConfig(tp)
-			}()
-			if v.Fail != "" {
+			cfg, err, pan := c20New(tp)
+			if pan != "" {
+				v.Fail = pan
 				return v
 			}
-			switch {
-			case tp == "":
-				v.Classes = append(v.Classes, "empty->default")
-				if err != nil || cfg == nil {
-					v.Classes = append(v.Classes, "unspecified:config-error")
-					return v
-				}
-				if got := c20Render(cfg.NamingFormat, id); !strings.HasPrefix(got, "ok: ") {
-					return v.Failf("default template %q of NewConfig(\"\") is not a valid template: FileNamingFormat(%q, %q) -> %s", cfg.NamingFormat, cfg.NamingFormat, id, got)
-				}
-				return v
-			case strings.TrimSpace(tp) == "":
-				v.Classes = append(v.Classes, "unspecified:blank")
-				return v
-			}
-			if err != nil || cfg == nil {
-				v.Classes = append(v.Classes, "unspecified:config-error")
-				return v
-			}
-			// a second Config created while the first is alive must not change the first
+			// a second Config created while the first is alive must not change the
+			// first; it is judged like the first
 			if c.Two {
 				tp2 := c20U(c.T2)
-				var cfg2 *Config
-				var err2 error
-				func() {
-					defer func() {
-						if p := recover(); p != nil {
-							v.Fail = fmt.Sprintf("NewConfig(%q) panicked: %v", tp2, p)
-						}
-					}()
-					cfg2, err2 = NewConfig(tp2)
-				}()
-				if v.Fail != "" {
+				cfg2, err2, pan2 := c20New(tp2)
+				if pan2 != "" {
+					v.Fail = pan2
 					return v
 				}
 				v.Classes = append(v.Classes, "two-configs-alive")
-				if err2 == nil && cfg2 != nil && tp2 != "" && strings.TrimSpace(tp2) != "" {
-					if d2, v2 := c20Render(tp2, id), c20Render(cfg2.NamingFormat, id); d2 != v2 {
-						return v.Failf("second config, template %q: through NewConfig (NamingFormat=%q) -> %s, directly -> %s", tp2, cfg2.NamingFormat, v2, d2)
-					}
+				if f, _, _ := c20JudgePipeline(tp2, id, cfg2, err2, nil); f != "" {
+					v.Fail = "second config: " + f
+					return v
 				}
 			}
-			direct, via := c20Render(tp, id), c20Render(cfg.NamingFormat, id)
-			v.Classes = append(v.Classes, "direct:"+strings.SplitN(direct, ":", 2)[0])
-			v.NonTrivial = strings.HasPrefix(direct, "ok: ") && strings.Contains(strings.Trim(id, "_"), "_")
-			if direct != via {
-				return v.Failf("template %q: through NewConfig (NamingFormat=%q) FileNamingFormat(_, %q) -> %s, directly -> %s", tp, cfg.NamingFormat, id, via, direct)
-			}
+			v.Fail, v.NonTrivial, _ = c20JudgePipeline(tp, id, cfg, err, &v.Classes)
 			return v
 		})
+}
+
+// c20JudgePipeline judges what the generator pipeline makes of template tp
+// (already through NewConfig: cfg, err) for identifier id.
+func c20JudgePipeline(tp, id string, cfg *Config, err error, classes *[]string) (fail string, nonTrivial bool, via string) {
+	add := func(c string) {
+		if classes != nil {
+			*classes = append(*classes, c)
+		}
+	}
+	add(c20TplClass(tp))
+	via, stage := c20Pipeline(cfg, err, id)
+	if strings.HasPrefix(via, "panic: ") {
+		return fmt.Sprintf("template %q, identifier %q: pipeline %s", tp, id, via), false, via
+	}
+	if tp == "" {
+		add("empty->default")
+		switch {
+		case via == "error" && stage == "config":
+			add("unspecified:empty-rejected")
+		case !strings.HasPrefix(via, "ok: "):
+			return fmt.Sprintf("default template %q of NewConfig(\"\") is not a valid template: FileNamingFormat(%q, %q) -> %s", cfg.NamingFormat, cfg.NamingFormat, id, via), false, via
+		}
+		return "", false, via
+	}
+	if via == "error" {
+		add("pipeline:rejected-by-" + stage)
+	} else {
+		add("pipeline:ok")
+	}
+	// (1) the statement: no go-then-designer reading => rejected
+	if !c20HasReading(tp) && via != "error" {
+		nf := ""
+		if cfg != nil {
+			nf = cfg.NamingFormat
+		}
+		return fmt.Sprintf("template %q lacks 'go' or 'designer' (or has them in the wrong order) but the pipeline NewConfig -> FileNamingFormat accepted it: NamingFormat=%q, FileNamingFormat(_, %q) -> %s", tp, nf, id, via), false, via
+	}
+	// (2) NewConfig neither alters nor filters templates
+	direct := c20Render(tp, id)
+	add("direct:" + strings.SplitN(direct, ":", 2)[0])
+	nonTrivial = strings.HasPrefix(direct, "ok: ") && strings.Contains(strings.Trim(id, "_"), "_")
+	if direct != via {
+		what := fmt.Sprintf("NamingFormat=%q", "")
+		if err != nil {
+			what = fmt.Sprintf("NewConfig error %q", err.Error())
+		} else if cfg != nil {
+			what = fmt.Sprintf("NamingFormat=%q", cfg.NamingFormat)
+		}
+		return fmt.Sprintf("template %q: through NewConfig (%s) FileNamingFormat(_, %q) -> %s, directly -> %s", tp, what, id, via, direct), nonTrivial, via
+	}
+	return "", nonTrivial, via
 }
